@@ -6,6 +6,7 @@ import (
 	"context"
 	"fmt"
 	"strconv"
+	"sync"
 	"sync/atomic"
 	"time"
 )
@@ -126,4 +127,17 @@ func verifYieldObj(point string, obj interface{}) {
 	if s := verifSched; s != nil {
 		s.Yield(point+"@"+fmt.Sprintf("%p", obj), nil)
 	}
+}
+
+// verifYieldLock is verifYieldAt for a hook that is followed by mu.Lock(): the
+// cooperative scheduler must not resume the goroutine while another (parked)
+// goroutine really holds the mutex.
+func verifYieldLock(point string, at string, mu *sync.Mutex) {
+	verifYield(point+"@"+at, func() bool {
+		if mu.TryLock() {
+			mu.Unlock()
+			return true
+		}
+		return false
+	})
 }
